@@ -29,9 +29,19 @@ pub(crate) struct Instant {
 }
 
 impl Instant {
+    #[cfg(not(feature = "verif"))]
     pub fn now() -> Self {
         Self {
             std_instant: StdInstant::now().checked_add(OFFSET).unwrap(),
+        }
+    }
+
+    /// With the `verif` feature the time source is the verification clock (see [`verif_clock`]);
+    /// everything else about `Instant` is unchanged.
+    #[cfg(feature = "verif")]
+    pub fn now() -> Self {
+        Self {
+            std_instant: verif_clock::now().checked_add(OFFSET).unwrap(),
         }
     }
 
@@ -76,6 +86,48 @@ impl fmt::Debug for Instant {
             instant.fmt(f)
         } else {
             f.write_fmt(format_args!("({:?} - one week)", self.std_instant))
+        }
+    }
+}
+
+/// Verification hook: a controllable time source.
+///
+/// `now()` returns, in this order, (a) a thread-local override set by the harness (used to drive
+/// the sequential components without any runtime), (b) tokio's clock, which is the paused
+/// virtual clock when the harness runs whole nodes on a paused runtime and the real clock
+/// otherwise.
+#[cfg(feature = "verif")]
+pub mod verif_clock {
+    use std::{
+        cell::Cell,
+        sync::OnceLock,
+        time::{Duration, Instant as StdInstant},
+    };
+
+    thread_local! {
+        static OVERRIDE: Cell<Option<Duration>> = const { Cell::new(None) };
+    }
+
+    fn base() -> StdInstant {
+        static BASE: OnceLock<StdInstant> = OnceLock::new();
+        *BASE.get_or_init(StdInstant::now)
+    }
+
+    /// Make the clock of the current thread read `base + since_base`. `None` removes the
+    /// override.
+    pub fn set(since_base: Option<Duration>) {
+        OVERRIDE.with(|cell| cell.set(since_base));
+    }
+
+    /// Current override of this thread, if any.
+    pub fn get() -> Option<Duration> {
+        OVERRIDE.with(|cell| cell.get())
+    }
+
+    pub(super) fn now() -> StdInstant {
+        match get() {
+            Some(since_base) => base() + since_base,
+            None => tokio::time::Instant::now().into_std(),
         }
     }
 }
